@@ -8,7 +8,8 @@ Concurrency: `batch` ops start 2-3 assignments together (tasks created in the gi
 attr_set_expression really suspends (a running value sequence started with PATCH /ports/<id>/sequence, pending
 evaluations, disabled ports); the result must be acyclic and equal to that of SOME serial order of the batch.
 Oracle (independent of the model, evaluated on the real observations after every op):
-  O1 the graph "p reads q" (q in get_expression().get_deps() of p, q != p, both live) has no cycle;
+  O1 the graph "p reads q" ($q occurs syntactically in get_expression() of p — walked over .args / .port_id, not taken
+     from get_deps() —, q != p, both live) has no cycle;
   O2 a refused assignment leaves every expression as it was;
   O3 an accepted assignment installs exactly the candidate on that port and changes no other port;
   O4 an assignment / check_loops call is refused as circular  <=>  installing the candidate would close a cycle
@@ -86,7 +87,9 @@ def render(t, ws=0):
         s = t[1]
     else:
         args = [render(a, ws) for a in t[2]]
-        if ws == 0:
+        if not args:            # `NAME( )` is refused by the grammar: nothing but `()` for an empty argument list
+            s = f'{t[1]} ()' if ws >= 2 else f'{t[1]}()'
+        elif ws == 0:
             s = f'{t[1]}({", ".join(args)})'
         elif ws == 1:
             s = f'{t[1]}({",".join(args)})'
@@ -222,9 +225,10 @@ class C04(Prop):
     N_THOROUGH = 24000
     RULE = ('random op sequences (<= 40 ops quick, <= 90 thorough) over <= 10 real virtual ports drawn from 12 ids '
             '(prefix-related ids included): add / delete / re-add ports, assign expressions (random trees of depth 0-3 over '
-            '15 real functions, leaves = $id of live / dangling / cycle-closing ports, $, @id, literals; 4 whitespace '
+            'ALL enabled functions of the live registry (arity and argument kinds introspected), leaves = $id of live / dangling / cycle-closing ports, $, @id, literals; 4 whitespace '
             'layouts; via PATCH /ports/<id> or set_attr), malformed texts, clear, disable/enable, direct check_loops '
-            'calls, restarts, PUT /ports restores, and concurrent batches: 2-3 assignments started together (tasks created in a '
+            'calls, restarts, PUT /ports restores, partial reloads (a port removed with its persisted record kept, others '
+            'edited meanwhile, the port loaded again by core.ports.load / POST / restart), and concurrent batches: 2-3 assignments started together (tasks created in a '
             'given order) after some of their ports got a running value sequence (PATCH /ports/<id>/sequence, long delays), '
             'were disabled, or have evaluations pending; chain / diamond scenarios steer towards long cycles. Non-trivial = at least one circular '
             'refusal AND one accepted assignment reading a live port; distinct = distinct (outcomes, final graph)')
@@ -268,11 +272,39 @@ class C04(Prop):
             self.loop.close()
 
     # ------------------------------------------------------------------------------------------------ cases
+    def _registry_sweep(self):
+        """For every function of the live registry and every argument position: p0 := F(.. $p1 ..) (bare, and wrapped in
+        ADD(…, 1)), then p1 := MUL($p0, 2) must be refused — a `$id` is read wherever it stands."""
+        cases = []
+        for name, (lo, hi, kinds) in sorted(function_table().items()):
+            n = max(lo, 1) if hi >= 1 else 0
+            for pos in range(n):
+                if pos < len(kinds) and kinds[pos] == 'r':
+                    continue
+                args = [['r', 'p1'] if j < len(kinds) and kinds[j] == 'r' else ['l', '1'] for j in range(n)]
+                args[pos] = ['v', 'p1']
+                f = ['c', name, args]
+                for t in (f, ['c', 'ADD', [f, ['l', '1']]]):
+                    cases.append({'ops': [['add', 'p0'], ['add', 'p1'], ['set', 'p0', t, 0],
+                                          ['set', 'p1', ['c', 'MUL', [['v', 'p0'], ['l', '2']]], 0],
+                                          ['check', 'p1', ['v', 'p0'], 0]]})
+        return cases
+
     def corpus(self):
         v, s, c, li = (lambda i: ['v', i]), ['s'], (lambda n, *a: ['c', n, list(a)]), (lambda t: ['l', t])
         add = lambda *ids: [['add', i] for i in ids]
         st = lambda i, t, ws=0: ['set', i, t, ws]
-        return [
+        return self._registry_sweep() + [
+            # a port goes away with its record kept, the other half of a cycle is assigned meanwhile, the port comes back:
+            # by load, by POST under the same id, by a restart
+            {'ops': add('p0', 'p2') + [st('p2', c('ADD', v('p0'), li('1'))), ['unload', 'p2'],
+                                         st('p0', c('MUL', v('p2'), li('2'))), ['load', 'p2'], st('p2', v('p0'))]},
+            {'ops': add('p0', 'p2') + [st('p2', v('p0')), ['en', 'p2', 0], ['unload', 'p2'], st('p0', v('p2')),
+                                         ['add', 'p2'], ['check', 'p2', v('p0'), 0]]},
+            {'ops': add('p0', 'p1', 'p2') + [st('p2', v('p1')), st('p1', v('p0')), ['unload', 'p2'], ['unload', 'p1'],
+                                               st('p0', v('p2')), ['reload'], st('p2', v('p1'))]},
+            {'ops': add('p0', 'p2') + [st('p2', v('p0')), ['unload', 'p2'], ['load', 'p2'], ['unload', 'p2'],
+                                         ['restore', [['p0', None, ['t', v('p2'), 0]]]], ['add', 'p2'], st('p2', v('p0'))]},
             # level boundary: self reference accepted, two-cycle refused, previous expression kept
             {'ops': add('p0', 'p1') + [st('p0', v('p0')), st('p0', s), st('p1', v('p0')), st('p0', c('ADD', s, v('p1'))),
                                          st('p0', v('p1'))]},
@@ -344,6 +376,8 @@ class C04(Prop):
                 return ['v', rng.choice([q for q in live if q != target])]
             if r < 0.72:
                 return ['s'] if rng.random() < 0.6 else ['v', target]
+            if r < 0.80 and stash:      # an absent port (its kept record may hold the other half of a cycle)
+                return ['v', rng.choice(sorted(stash))]
             if r < 0.80:
                 return ['v', rng.choice(POOL)]
             if r < 0.83:
@@ -392,6 +426,60 @@ class C04(Prop):
             if i not in live and len(live) < MAX_PORTS:
                 live.append(i)
                 graph.pop(i, None)
+                trees.pop(i, None)
+                if i in stash:
+                    t = stash.pop(i)
+                    if t is not None:
+                        shadow_set(i, t)
+
+        def do_unload(i):
+            ops.append(['unload', i])
+            if i in live:
+                live.remove(i)
+                stash[i] = trees.pop(i, None) if i in graph else None
+                graph.pop(i, None)
+
+        def do_load(i):
+            ops.append(['load', i])
+            if i in stash and i not in live:
+                t = stash.pop(i)
+                live.append(i)
+                if t is not None:
+                    shadow_set(i, t)
+
+        def do_partial():
+            """A port goes away with its persisted record kept; the others are edited meanwhile (references to the
+            absent id are dead ends for the check); the port comes back (load / POST under the same id / restart)."""
+            c0 = rng.choice(live)
+            others = [q for q in live if q != c0]
+            if others and rng.random() < 0.8:
+                a0 = rng.choice(others)
+                t = rng.choice([['v', a0], ['c', 'ADD', [['v', a0], ['l', '1']]], candidate(c0)])
+                ops.append(['set', c0, t, rng.randrange(4)])
+                shadow_set(c0, t)
+            if rng.random() < 0.3:
+                ops.append(['en', c0, rng.choice([0, 1])])
+            do_unload(c0)
+            for _ in range(rng.randint(1, 3)):
+                if not live:
+                    break
+                a0 = rng.choice(live)
+                r1 = rng.random()
+                t = ['v', c0] if r1 < 0.4 else ['c', 'MUL', [['v', c0], ['l', '2']]] if r1 < 0.7 else candidate(a0)
+                ops.append([rng.choice(['set', 'seta']), a0, t, rng.randrange(4)])
+                shadow_set(a0, t)
+            r2 = rng.random()
+            if r2 < 0.5:
+                do_load(c0)
+            elif r2 < 0.7:
+                do_add(c0)
+            elif r2 < 0.9:
+                ops.append(['reload'])
+                for i in list(stash):
+                    t = stash.pop(i)
+                    live.append(i)
+                    if t is not None:
+                        shadow_set(i, t)
 
         def do_batch():
             """2-3 assignments submitted together; beforehand some of the ports get a running sequence (which makes
@@ -479,6 +567,12 @@ class C04(Prop):
                 ops.append(['reload'])
             elif r < 0.40 and len(live) >= 2:
                 do_batch()
+            elif r < 0.44 and live:
+                do_partial()
+            elif r < 0.46 and live:
+                do_unload(rng.choice(live))
+            elif r < 0.48 and stash:
+                do_load(rng.choice(sorted(stash)))
             elif r < 0.325:
                 # PUT /ports: either a faithful backup of the (shadow) hub, or a random description
                 entries = []
@@ -604,6 +698,18 @@ class C04(Prop):
             return 'circular' if reason == 'circular-dependency' else 'parse-error'
         return f'other:{type(e).__name__}'
 
+    def _syn_refs(self, e):
+        """Ids of the `$id` occurrences in a real expression object, by walking the syntax tree (PortValue.port_id,
+        Function.args) — NOT get_deps(): "reads the value of" is syntactic, whatever trigger set a function reports."""
+        if isinstance(e, self.ce.PortValue):
+            return {e.port_id}
+        if isinstance(e, self.ce.Function):
+            out = set()
+            for a in e.args:
+                out |= self._syn_refs(a)
+            return out
+        return set()
+
     async def _snapshot(self):
         snap = {}
         for port in self.core_ports.get_all():
@@ -617,7 +723,7 @@ class C04(Prop):
                     attr_c = str(self.ce.parse(pid, attr, self.ce.ROLE_VALUE))
                 except Exception:
                     attr_c = 'unparsable:' + attr
-            deps = sorted(d[1:] for d in expr.get_deps() if d.startswith('$')) if expr else []
+            deps = sorted(self._syn_refs(expr)) if expr else []
             snap[pid] = {'enabled': 1 if port.is_enabled() else 0, 'expr': str(expr) if expr else '-',
                          'attr': attr_c, 'deps': deps}
         return snap
@@ -628,7 +734,7 @@ class C04(Prop):
             e = self.ce.parse(pid, text, self.ce.ROLE_VALUE)
         except self.ce.ExpressionParseError:
             return None
-        return str(e), sorted(d[1:] for d in e.get_deps() if d.startswith('$'))
+        return str(e), sorted(self._syn_refs(e))
 
     @staticmethod
     def entry_text(en):
@@ -678,8 +784,13 @@ class C04(Prop):
         except Exception as e:  # noqa
             return self._err(e)
 
+    def _vargs(self, pid):
+        return {'driver': self.core_vports.VirtualPort, 'id_': pid, 'type_': 'number', 'min_': None, 'max_': None,
+                'integer': None, 'step': None, 'choices': None}
+
     async def _real(self, case):
         await self._reset()
+        stash = []          # ids of absent ports whose persisted record is kept, newest first
         h, api = self.handler, self.api_ports
         obs = []
         after = await self._snapshot()
@@ -693,13 +804,15 @@ class C04(Prop):
                 settings.core.backup_support, settings.slaves.enabled = True, False
             out = 'ok'
             try:
-                if kind in ('del', 'reload', 'restore'):
+                if kind in ('del', 'reload', 'restore', 'unload'):
                     await self._quiesce()
                 if kind == 'add':
                     if len(before) >= MAX_PORTS and op[1] not in before:
                         out = 'skipped'
                     else:
-                        await api.post_ports(h, {'id': op[1], 'type': 'number'})
+                        await api.post_ports(h, {'id': op[1], 'type': 'number'})    # loads a kept record, if any
+                        if op[1] in stash:
+                            stash.remove(op[1])
                 elif kind == 'del':
                     await api.delete_port(h, op[1])
                 elif kind == 'en':
@@ -725,6 +838,7 @@ class C04(Prop):
                         except self.ce.CircularDependency:
                             out = 'loop'
                 elif kind == 'restore':
+                    stash = []          # put_ports clears every persisted port record (core.ports.reset)
                     await api.put_ports(h, [self.entry_json(en) for en in op[1]])
                 elif kind == 'seq':
                     try:
@@ -737,12 +851,32 @@ class C04(Prop):
                     cand = [self._candidate_info(sub[1], self.op_text(sub)) if sub[0] != 'clr' else None for sub in op[1]]
                     tasks = [asyncio.ensure_future(self._one_assignment(sub)) for sub in op[1]]   # started in this order
                     out = list(await asyncio.gather(*tasks))
+                elif kind == 'unload':
+                    port = self.core_ports.get(op[1])
+                    if port is None:
+                        out = 'no-such-port'
+                    else:
+                        await port.save()
+                        await port.remove(persisted_data=False)
+                        stash = [op[1]] + [i for i in stash if i != op[1]]
+                elif kind == 'load':
+                    if self.core_ports.get(op[1]) is not None:
+                        out = 'duplicate-port'
+                    elif op[1] not in stash:
+                        out = 'no-such-port'
+                    else:
+                        stash.remove(op[1])
+                        await self.core_ports.load([self._vargs(op[1])])
                 elif kind == 'reload':
+                    # restart: every port is saved and dropped, then registered ports are loaded again in registration
+                    # order, followed by the absent ones that still have a persisted record
+                    order = [port.get_id() for port in self.core_ports.get_all()] + stash
                     for port in self.core_ports.get_all():
                         await port.save()
                     for port in list(self.core_ports.get_all()):
                         await port.remove(persisted_data=False)
-                    await self.core_vports.init()
+                    stash = []
+                    await self.core_ports.load([self._vargs(i) for i in order])
                 else:
                     raise ValueError(kind)
             except Exception as e:  # noqa
@@ -779,6 +913,8 @@ class C04(Prop):
                 out = driver.ask(f'check {op[1]} ' + ' '.join(tokens(op[2])))
             elif kind == 'restore':
                 out = driver.ask('restore' + ''.join(' ; ' + self.entry_tokens(en) for en in op[1]))
+            elif kind in ('unload', 'load'):
+                out = driver.ask(f'{kind} {op[1]}')
             elif kind == 'seq':
                 out = 'skipped'         # no effect on the dependency graph; outcome is the real one
             elif kind == 'batch':
@@ -943,7 +1079,7 @@ class C04(Prop):
                 pass
             elif kind == 'restore':
                 tags.add(f'restore-{len(op[1])}-entries')
-            elif kind in ('en', 'add', 'del', 'reload', 'clr'):
+            elif kind in ('en', 'add', 'del', 'reload', 'clr', 'unload', 'load'):
                 keep = {p: e for p, e in exprs_b.items() if p in exprs_a and not (kind == 'clr' and p == op[1])}
                 if {p: exprs_a[p] for p in keep} != keep and out in ('ok', 'skipped', 'no-such-port', 'duplicate-port'):
                     prop_fail(idx, f'{kind} changed installed expressions: {exprs_b} -> {exprs_a}')
